@@ -27,10 +27,10 @@ Qed.
 Record Rel (stream : bytes) (St : sstate) (s : bs) : Prop := mkRel {
   R_rem : s_rem St = remaining s;
   R_max : s_max St = maxsize s;
-  R_tmo : timeouts (nt s) <= s_tmo St;
+  R_tmo : s_intr St = intrs (nt s);
   R_acc : s_acc St = wire s ++ concat (sbuf s);
   R_wl : s_wl St = length (wire s);
-  R_stmo : stimeouts (script s) <= s_stmo St;
+  R_stmo : s_sintr St = sintrs (script s);
   R_suf : exists pre, stream = pre ++ flat (nt s);
   R_wf : wf_net (nt s) = true;
   R_rs : 1 <= recvsize s
@@ -56,14 +56,15 @@ Proof.
     { exists (pre ++ p2). rewrite Hsuf, Hp2, app_assoc. reflexivity. }
     assert (Hns : is_send_op o = false) by (destruct o; try discriminate; reflexivity).
     unfold spec_step, observe. rewrite Hro, Hns. cbn [o_out o_buf o_cnt getrecvbuffer].
-    destruct Hcase as [(-> & Hr & Ht)|(Hnt & Ht & Hcase)].
-    + cbn [is_timeout]. destruct (s_tmo St) as [|t] eqn:Et; [lia|].
+    destruct Hcase as [(e & -> & Hr & Ht)|(Hnt & Ht & Hcase)].
+    + cbn [is_interrupt]. rewrite (intrs_head _ _ _ Ht). rewrite Htmo, Ht. cbn [next_intr].
+      rewrite exn_eqb_refl.
       rewrite Hrem, <- Hr, conserved_ok by assumption.
       eexists. split; [reflexivity|]. constructor; cbn; try congruence; try lia; auto.
     + rewrite Hnt.
       assert (Hfin : forall rem', rem' = remaining s' ->
                 exists St', (if bytes_eqb (rbuf s' ++ skipn (consumed (length stream) s') stream) rem'
-                            then Some (mkS rem' (maxsize s) (s_tmo St) (s_acc St) (s_wl St) (s_stmo St))
+                            then Some (mkS rem' (maxsize s) (s_intr St) (s_acc St) (s_wl St) (s_sintr St))
                             else None) = Some St' /\ Rel stream St' s').
       { intros rem' ->. rewrite conserved_ok by assumption. eexists. split; [reflexivity|].
         constructor; cbn; try congruence; try lia; auto. }
@@ -86,10 +87,10 @@ Proof.
         rewrite !(proj2 (Nat.leb_le _ _)); [reflexivity| |].
         - rewrite HW, app_length. lia.
         - rewrite Hwl, Hw, app_length. lia. }
-      assert (Hrel : forall stmo, stimeouts (script s') <= stmo ->
-                Rel stream (mkS (s_rem St) (s_max St) (s_tmo St) ((wire s ++ concat (sbuf s)) ++ op_data o)
-                                (length (wire s')) stmo) s').
-      { intros stmo Hle. constructor; cbn [s_rem s_max s_tmo s_acc s_wl s_stmo].
+      assert (Hrel : forall si, si = sintrs (script s') ->
+                Rel stream (mkS (s_rem St) (s_max St) (s_intr St) ((wire s ++ concat (sbuf s)) ++ op_data o)
+                                (length (wire s')) si) s').
+      { intros si Hsi. constructor; cbn [s_rem s_max s_intr s_acc s_wl s_sintr].
         - rewrite Hrem. unfold remaining. rewrite SR1, SR2. reflexivity.
         - congruence.
         - rewrite SR2. assumption.
@@ -99,34 +100,39 @@ Proof.
         - rewrite SR2. eauto.
         - rewrite SR2. assumption.
         - rewrite SR4. assumption. }
+      assert (Hintr : forall e, sintrs (script s) = e :: sintrs (script s') ->
+                is_interrupt (OExn e) = true /\
+                next_intr (OExn e) (s_sintr St) = Some (sintrs (script s'))).
+      { intros e He. split; [cbn; exact (sintrs_head _ _ _ He)|].
+        rewrite Hstmo, He. cbn [next_intr]. rewrite exn_eqb_refl. reflexivity. }
       destruct o; try discriminate; cbn [op_data] in *; rewrite Hacc.
       * (* Send *)
-        destruct out as [| n | |[]]; try contradiction.
+        destruct out as [| n | |e]; try contradiction.
         -- destruct Hcase as (Hsb & -> & Hst). rewrite Hconserved by reflexivity.
            rewrite Hsb. cbn [is_nil andb].
            rewrite Hwl. replace (length (wire s) + length sent) with (length (wire s'))
              by (rewrite Hw, app_length; reflexivity).
            rewrite Nat.eqb_refl.
-           eexists. split; [reflexivity|]. apply Hrel. lia.
-        -- destruct (s_stmo St) as [|t] eqn:Et; [lia|]. rewrite Hconserved by reflexivity.
-           eexists. split; [reflexivity|]. apply Hrel. lia.
+           eexists. split; [reflexivity|]. apply Hrel. congruence.
+        -- destruct (Hintr e Hcase) as [Hi Hn]. rewrite Hi, Hn. rewrite Hconserved by reflexivity.
+           eexists. split; [reflexivity|]. apply Hrel. reflexivity.
       * (* Buffer *)
         destruct out; try contradiction. destruct Hcase as (-> & Hst).
         rewrite app_nil_r in Hw. rewrite Hconserved by reflexivity.
         assert (Hq : Nat.eqb (length (wire s')) (s_wl St) = true) by (apply Nat.eqb_eq; congruence).
         rewrite Hq.
-        eexists. split; [reflexivity|]. apply Hrel. lia.
+        eexists. split; [reflexivity|]. apply Hrel. congruence.
       * (* Flush *)
-        destruct out as [| | |[]]; try contradiction.
+        destruct out as [| | |e]; try contradiction.
         -- destruct Hcase as (Hsb & Hst).
            pose proof (Hconserved _ eq_refl) as Hc. rewrite app_nil_r in Hc. rewrite Hc.
            rewrite Hsb. cbn [is_nil].
            eexists. split; [reflexivity|].
-           specialize (Hrel (s_stmo St) ltac:(lia)). rewrite app_nil_r in Hrel. exact Hrel.
-        -- destruct (s_stmo St) as [|t] eqn:Et; [lia|].
+           specialize (Hrel (s_sintr St) ltac:(congruence)). rewrite app_nil_r in Hrel. exact Hrel.
+        -- destruct (Hintr e Hcase) as [Hi Hn]. rewrite Hi, Hn.
            pose proof (Hconserved _ eq_refl) as Hc. rewrite app_nil_r in Hc. rewrite Hc.
            eexists. split; [reflexivity|].
-           specialize (Hrel t ltac:(lia)). rewrite app_nil_r in Hrel. exact Hrel.
+           specialize (Hrel _ eq_refl). rewrite app_nil_r in Hrel. exact Hrel.
     + (* setmaxsize *)
       destruct o; try discriminate. cbn [step] in Hstep. inversion Hstep; subst; clear Hstep.
       unfold spec_step, observe. cbn [is_recv_op is_send_op o_out outcome_eqb].
@@ -148,7 +154,7 @@ Proof.
       destruct (match rbuf s with [] => _ | _ => _ end) as [[?|] ?]; [|inversion H; reflexivity].
       destruct (rs_loop _ _ _ _ _ _ _) as [[? ? ?|? ?] ?]; inversion H; reflexivity.
     + unfold recv_close, recv_size_lim in H.
-      destruct (match rbuf s with [] => _ | _ => _ end) as [[?|] ?]; [|inversion H; reflexivity].
+      destruct (match rbuf s with [] => _ | _ => _ end) as [[?|e0] ?]; [|destruct e0; inversion H; reflexivity].
       destruct (rs_loop _ _ _ _ _ _ _) as [[? ? ?|[] ?] ?]; inversion H; reflexivity.
     + unfold recv in H. destruct (Nat.leb _ _); [inversion H; reflexivity|].
       destruct (rbuf s); [|inversion H; reflexivity].
@@ -186,10 +192,10 @@ Theorem model_refines_spec mx rs n sc ops :
   wf_net n = true -> 1 <= rs ->
   let len := length (flat n) in
   let '(obs, sf) := run len (bs_init mx rs n sc) ops in
-  spec_holds (flat n) mx (timeouts n) (stimeouts sc) obs (final_view len sf) = true.
+  spec_holds (flat n) mx (intrs n) (sintrs sc) obs (final_view len sf) = true.
 Proof.
   intros W R len. destruct (run len (bs_init mx rs n sc) ops) as [obs sf] eqn:E.
-  assert (HR : Rel (flat n) (spec_init (flat n) mx (timeouts n) (stimeouts sc)) (bs_init mx rs n sc)).
+  assert (HR : Rel (flat n) (spec_init (flat n) mx (intrs n) (sintrs sc)) (bs_init mx rs n sc)).
   { constructor; cbn; auto. exists []. reflexivity. }
   destruct (run_spec (flat n) ops _ _ obs sf HR E) as (St' & Hs & HR').
   unfold spec_holds, final_view. cbn [f_wire]. rewrite Hs.
